@@ -325,6 +325,11 @@ func runEntry(prog *ssa.Program, fn *ssa.Function, er *EntryResult, tier int, so
 	for n := range notes {
 		er.Notes = append(er.Notes, n)
 	}
+	for _, n := range in.preinitNotes {
+		if strings.Contains(n, "perkeep.org/") {
+			er.Notes = append(er.Notes, "preinit: "+n)
+		}
+	}
 	sort.Strings(er.Notes)
 	files := map[string]bool{}
 	for name := range in.stats.Functions {
@@ -379,9 +384,7 @@ func (in *Interp) preInit(p *ssa.Package) {
 		}
 		in.initPackage(q)
 	}
-	for _, n := range in.pathNotes {
-		in.stats.Unsupported["preinit: "+n]++
-	}
+	in.preinitNotes = append(in.preinitNotes, in.pathNotes...)
 	in.pathNotes = nil
 }
 
@@ -405,6 +408,7 @@ func (in *Interp) runPath(fn *ssa.Function, prefix []int) (kind, msg string) {
 	in.pathNotes = nil
 	in.lastClock = nil
 	in.concPos = 0
+	in.model = nil
 	in.concChoice = 0
 	in.stubs = map[string]*FuncV{}
 	in.gwaits = map[*Goroutine]*gwait{}
